@@ -12,8 +12,10 @@ from .core import Unsupported
 
 
 class Inliner:
-    def __init__(self, fn, src, keep=()):
-        self.fn, self.src, self.keep = fn, src, set(keep) | {a.arg for a in fn.args.args}
+    def __init__(self, fn, src, keep=(), reassigned_params=()):
+        """reassigned_params: parameters whose later re-assignments are to be looked through (their initial value is the parameter itself)"""
+        self.initial = set(reassigned_params)
+        self.fn, self.src, self.keep = fn, src, (set(keep) | {a.arg for a in fn.args.args}) - self.initial
         self.where = {}     # id(stmt) -> (block, index, parent stmt or None)
         self._index(fn.body, None)
         self.depth = 0
@@ -89,7 +91,7 @@ class Inliner:
     def value_before(self, stmt, name):
         block, i, parent = self.where[id(stmt)]
         if parent is None:
-            outer = None
+            outer = ast.Name(id=name, ctx=ast.Load()) if name in self.initial else None
         elif isinstance(parent, ast.If):
             outer = lambda: self.value_before(parent, name)  # noqa: E731
         else:
@@ -175,6 +177,60 @@ def _quantifier_loop(loop, nxt):
     return ast.fix_missing_locations(ast.copy_location(new, loop))
 
 
+def _subst_single_use_temps(stmts):
+    """[t1 = e1; ...; S]  ->  [S with t_i replaced by e_i]  when every t_i is a plain name assigned once and read exactly once, later in the list
+    (one read: the evaluation happens once, at a point where nothing else of the list has run in between except other such temporaries)"""
+    stmts = list(stmts)
+    while len(stmts) > 1 and isinstance(stmts[0], (ast.Assign, ast.AnnAssign)):
+        s0 = stmts[0]
+        t = s0.targets[0] if isinstance(s0, ast.Assign) and len(s0.targets) == 1 else (s0.target if isinstance(s0, ast.AnnAssign) else None)
+        if not isinstance(t, ast.Name) or s0.value is None:
+            break
+        reads = [n for st in stmts[1:] for n in ast.walk(st) if isinstance(n, ast.Name) and n.id == t.id]
+        call_free = not any(isinstance(n, (ast.Call, ast.Await, ast.Yield, ast.YieldFrom, ast.NamedExpr, ast.Lambda)) for n in ast.walk(s0.value))
+        in_next = all(any(n is r for n in ast.walk(stmts[1])) for r in reads)
+        if not reads or not all(isinstance(r.ctx, ast.Load) for r in reads) or not in_next or (len(reads) != 1 and not (call_free and len(stmts) == 2)):
+            break       # several reads are fine for a call-free value (attribute / item reads) used by the one remaining statement only
+
+        class R(ast.NodeTransformer):
+            def visit_Name(self, n):
+                return copy.deepcopy(s0.value) if any(n is r for r in reads) else n
+        stmts = [R().visit(stmts[1])] + stmts[2:]
+    return stmts
+
+
+def canon(e):
+    """a copy of the expression with comprehension-bound variables renamed canonically by nesting depth and position (so that
+    `[i.g for i in xs]` and `[b.g for b in xs]` unparse alike, wherever they occur)"""
+    e = copy.deepcopy(e)
+
+    def go(n, ren, depth):
+        if isinstance(n, (ast.ListComp, ast.GeneratorExp, ast.SetComp, ast.DictComp)):
+            ren = dict(ren)
+            k = 0
+            for g in n.generators:
+                go(g.iter, ren, depth + 1)
+                for x in ast.walk(g.target):
+                    if isinstance(x, ast.Name):
+                        ren[x.id] = f"_c{depth}" if k == 0 else f"_c{depth}_{k}"
+                        k += 1
+                go(g.target, ren, depth + 1)
+                for c in g.ifs:
+                    go(c, ren, depth + 1)
+            for fld in ("elt", "key", "value"):
+                if hasattr(n, fld):
+                    go(getattr(n, fld), ren, depth + 1)
+            return
+        if isinstance(n, ast.Name) and n.id in ren:
+            n.id = ren[n.id]
+        if isinstance(n, ast.IfExp) and isinstance(n.test, ast.UnaryOp) and isinstance(n.test.op, ast.Not):
+            n.test, n.body, n.orelse = n.test.operand, n.orelse, n.body      # `a if not t else b`  =  `b if t else a`
+        for c in ast.iter_child_nodes(n):
+            go(c, ren, depth)
+    go(e, {}, 0)
+    return e
+
+
 def _append_loop(init, loop):
     """`X = []` / `X = {}` (or annotated) followed by a nest `for v in IT: [for w in IT2: ...] [if C:] X.append(E)` / `X.extend(E)` / `X[K] = E`
     ->  the comprehension assigned to X, or None"""
@@ -182,12 +238,18 @@ def _append_loop(init, loop):
     val = init.value
     is_list = isinstance(val, ast.List) and not val.elts
     is_dict = isinstance(val, ast.Dict) and not val.keys
-    if not (isinstance(tgt, ast.Name) and (is_list or is_dict)):
+    is_self_attr = isinstance(tgt, ast.Attribute) and isinstance(tgt.value, ast.Name) and tgt.value.id == "self"
+    if not ((isinstance(tgt, ast.Name) or is_self_attr) and (is_list or is_dict)):
         return None
-    mentions = lambda e: any(isinstance(n, ast.Name) and n.id == tgt.id for n in ast.walk(e))  # noqa: E731
+    tsrc = ast.unparse(tgt)
+    same = lambda n: isinstance(n, (ast.Name, ast.Attribute)) and ast.unparse(n) == tsrc  # noqa: E731
+    mentions = lambda e: any(same(n) for n in ast.walk(e))  # noqa: E731
     gens, st = [], loop
     while isinstance(st, ast.For):
         tnames = [st.target] if isinstance(st.target, ast.Name) else (st.target.elts if isinstance(st.target, ast.Tuple) else [None])
+        if len(st.body) > 1:
+            st = copy.copy(st)
+            st.body = _subst_single_use_temps(st.body)
         if st.orelse or not all(isinstance(x, ast.Name) for x in tnames) or len(st.body) != 1 or mentions(st.iter):
             return None
         gens.append(ast.comprehension(target=st.target, iter=st.iter, ifs=[], is_async=0))
@@ -200,24 +262,25 @@ def _append_loop(init, loop):
     if not gens:
         return None
     if is_list:
-        if not (isinstance(st, ast.Expr) and isinstance(st.value, ast.Call) and isinstance(st.value.func, ast.Attribute) and isinstance(st.value.func.value, ast.Name)
-                and st.value.func.value.id == tgt.id and st.value.func.attr in ("append", "extend") and len(st.value.args) == 1 and not st.value.keywords):
+        if not (isinstance(st, ast.Expr) and isinstance(st.value, ast.Call) and isinstance(st.value.func, ast.Attribute) and same(st.value.func.value)
+                and st.value.func.attr in ("append", "extend") and len(st.value.args) == 1 and not st.value.keywords):
             return None
         if mentions(st.value.args[0]):
             return None
         if st.value.func.attr == "append":
             elt = st.value.args[0]
         else:
-            inner = ast.Name(id="_elt_of_" + tgt.id, ctx=ast.Store())
+            en = "_elt_of_" + tsrc.replace(".", "_")
+            inner = ast.Name(id=en, ctx=ast.Store())
             gens.append(ast.comprehension(target=inner, iter=st.value.args[0], ifs=[], is_async=0))
-            elt = ast.Name(id="_elt_of_" + tgt.id, ctx=ast.Load())
+            elt = ast.Name(id=en, ctx=ast.Load())
         comp = ast.ListComp(elt=elt, generators=gens)
     else:
-        if not (isinstance(st, ast.Assign) and len(st.targets) == 1 and isinstance(st.targets[0], ast.Subscript) and isinstance(st.targets[0].value, ast.Name)
-                and st.targets[0].value.id == tgt.id and not mentions(st.value) and not mentions(st.targets[0].slice)):
+        if not (isinstance(st, ast.Assign) and len(st.targets) == 1 and isinstance(st.targets[0], ast.Subscript) and same(st.targets[0].value)
+                and not mentions(st.value) and not mentions(st.targets[0].slice)):
             return None
         comp = ast.DictComp(key=st.targets[0].slice, value=st.value, generators=gens)
-    new = ast.Assign(targets=[ast.Name(id=tgt.id, ctx=ast.Store())], value=comp)
+    new = ast.Assign(targets=[copy.deepcopy(tgt)], value=comp)
     return ast.fix_missing_locations(ast.copy_location(new, loop))
 
 
@@ -327,3 +390,41 @@ def normalise_block(stmts, in_loop=False, dict_views=True, sums=True):
 def normalise(fn, dict_views=True, sums=True):
     fn.body = normalise_block(fn.body, False, dict_views, sums)
     return fn
+
+
+def return_paths(fn, src, inl=None):
+    """the function as guarded returns: [(conditions, returned expression)], conditions = [(test, polarity)] along the path; straight-line
+    code with if / elif / else, assignments to local temporaries (looked through with the Inliner) and returns only"""
+    inl = inl or Inliner(fn, src)
+    out = []
+
+    def walk(stmts, conds):
+        """returns True if every path through stmts ends in a return"""
+        for i, s in enumerate(stmts):
+            if isinstance(s, ast.Expr) and isinstance(s.value, ast.Constant):
+                continue
+            if isinstance(s, (ast.Assign, ast.AnnAssign)) and isinstance(s.targets[0] if isinstance(s, ast.Assign) else s.target, ast.Name):
+                continue
+            if isinstance(s, ast.Return):
+                if s.value is None:
+                    raise Unsupported(f"{src}:{s.lineno}: {fn.name}: bare return")
+                out.append((list(conds), inl.inline(s.value, s)))
+                return True
+            if isinstance(s, ast.If):
+                t = inl.inline(s.test, s)
+                a = walk(s.body, conds + [(t, True)])
+                b = walk(s.orelse, conds + [(t, False)]) if s.orelse else False
+                if a and b:
+                    return True
+                if a and not b:
+                    if s.orelse:
+                        raise Unsupported(f"{src}:{s.lineno}: {fn.name}: an else branch that falls through")
+                    return walk(stmts[i + 1:], conds + [(t, False)])
+                if not a and not b and not s.orelse:
+                    raise Unsupported(f"{src}:{s.lineno}: {fn.name}: an if without a return in it")
+                raise Unsupported(f"{src}:{s.lineno}: {fn.name}: unsupported branching")
+            raise Unsupported(f"{src}:{s.lineno}: {fn.name}: unsupported statement {ast.unparse(s)[:100]}")
+        return False
+    if not walk(fn.body, []):
+        raise Unsupported(f"{src}:{fn.lineno}: {fn.name} can fall off its end")
+    return out
